@@ -101,9 +101,9 @@ def jobs(tier):
             for guess in (None, "P1") if topo == "T3" else (None,):
                 js.append(Job(f"small-motion-{topo}-{perm}-guess={guess}", "c12:track",
                               dict(topo=topo, perm=perm, box=0.003, cm=False, guess_pn=guess, nframes=2 if (quick or topo != "T3") else 3),
-                              budget_s=2400, max_paths=2000, weight=3))
+                              budget_s=2400, max_paths=2000, weight=3, opts=dict(prune_minmax=True)))
     if not quick:
         # displacements reaching beyond the first search radius (0.5% of the extent): the search forks on every comparison
         js.append(Job("beyond-first-radius-T3-rev", "c12:track", dict(topo="T3", perm="rev", box=0.0055, cm=False, guess_pn=None),
-                      budget_s=3000, max_paths=20000, weight=10, opts=dict(fork_timeout_ms=3000)))
+                      budget_s=3000, max_paths=20000, weight=10, opts=dict(fork_timeout_ms=3000, prune_minmax=True)))
     return js
